@@ -11,7 +11,10 @@ import (
 	"github.com/ethereum/go-ethereum/common"
 
 	clienttypes "github.com/bianjieai/tibc-go/modules/tibc/core/02-client/types"
+	govv1beta1 "github.com/cosmos/cosmos-sdk/x/gov/types/v1beta1"
+
 	routingtypes "github.com/bianjieai/tibc-go/modules/tibc/core/26-routing/types"
+	corecli "github.com/bianjieai/tibc-go/modules/tibc/core/client/cli"
 	"github.com/bianjieai/tibc-go/modules/tibc/core/exported"
 	bsctypes "github.com/bianjieai/tibc-go/modules/tibc/light-clients/08-bsc/types"
 
@@ -28,6 +31,26 @@ type c15Signer struct {
 	authority func(c *vnet.Chain) string
 	acc       func(c *vnet.Chain) *vnet.Account
 	isGov     bool
+	// legacy: the request is a v1beta1 proposal content handed to the TIBC proposal handler, which is what the gov module's
+	// legacy router does with a passed legacy proposal (after gov checked its own authority). simapp builds that router
+	// but never installs it (gov's MsgExecLegacyContent dereferences a nil router there), so the handler is called the
+	// way an application that does install it (SetLegacyRouter) would call it.
+	legacy bool
+}
+
+// c15Legacy translates a privileged TIBC message into the legacy proposal content with the same payload.
+func c15Legacy(msg sdk.Msg) govv1beta1.Content {
+	switch m := msg.(type) {
+	case *clienttypes.MsgCreateClient:
+		return &clienttypes.CreateClientProposal{Title: m.Title, Description: m.Description, ChainName: m.ChainName, ClientState: m.ClientState, ConsensusState: m.ConsensusState}
+	case *clienttypes.MsgUpgradeClient:
+		return &clienttypes.UpgradeClientProposal{Title: m.Title, Description: m.Description, ChainName: m.ChainName, ClientState: m.ClientState, ConsensusState: m.ConsensusState}
+	case *clienttypes.MsgRegisterRelayer:
+		return &clienttypes.RegisterRelayerProposal{Title: m.Title, Description: m.Description, ChainName: m.ChainName, Relayers: m.Relayers}
+	case *routingtypes.MsgSetRoutingRules:
+		return &routingtypes.SetRoutingRulesProposal{Title: m.Title, Description: m.Description, Rules: m.Rules}
+	}
+	return nil
 }
 
 func TestC15(t *testing.T) {
@@ -68,13 +91,19 @@ func aclScenario(w *world.World, rng *rand.Rand, rec *mon.Recorder, nClients int
 		{name: "tx-user-as-authority", route: "tx", authority: func(c *vnet.Chain) string { return user.Addr.String() }, acc: func(c *vnet.Chain) *vnet.Account { return user }},
 		{name: "tx-forged-gov-authority", route: "tx", authority: func(c *vnet.Chain) string { return gov }, acc: func(c *vnet.Chain) *vnet.Account { return user }},
 		{name: "tx-relayer-as-authority", route: "tx", authority: func(c *vnet.Chain) string { return c.Relayer.Addr.String() }, acc: func(c *vnet.Chain) *vnet.Account { return c.Relayer }},
+		// the same requests as legacy (v1beta1) proposal contents
+		{name: "legacy-gov-exec", route: "legacy", authority: func(c *vnet.Chain) string { return gov }, isGov: true, legacy: true},
 	}
 	has := func(name string) bool { return world.HasClient(X, name) }
 	clientBytes := func(name string) []byte { return X.Get("tibc", []byte("clients/"+name+"/clientState")) }
 
 	deliver := func(s c15Signer, msg sdk.Msg, kind string) *world.Action {
 		a := &world.Action{Kind: kind, On: X, Note: s.name}
-		if s.route == "router" {
+		if s.legacy {
+			content := c15Legacy(msg)
+			rec.Count("legacy-proposal-contents", 1)
+			a.Exec = func(ctx sdk.Context) error { return corecli.NewProposalHandler(X.App.TIBCKeeper)(ctx, content) }
+		} else if s.route == "router" {
 			a.Exec = func(ctx sdk.Context) error {
 				h := X.App.MsgServiceRouter().Handler(msg)
 				_, err := h(ctx, msg)
@@ -298,7 +327,7 @@ func aclScenario(w *world.World, rng *rand.Rand, rec *mon.Recorder, nClients int
 		}
 		// the counterparty is alive: the offered client state is that of a block it has just produced
 		w.Do(&world.Action{Kind: "block", On: o, Exec: func(sdk.Context) error { return nil }})
-		for _, s := range signers[:2] {
+		for _, s := range []c15Signer{signers[0], signers[1], signers[6]} {
 			before := clientBytes(o.Name)
 			csT, consT := vnet.NewTMClientState(o, vnet.DefaultClientCfg)
 			csT.TrustingPeriod /= 2 // a different but valid client state for the same name
